@@ -34,15 +34,8 @@ def run(ctx):
     ctx.touch(close_fn)
 
     # R03.1 who may close --------------------------------------------------
-    cg = call_graph(F)
-    callers = cg.get(close_fn.key, set())
     n_ok = 0
-    seen = set()
-    for ck, blk in sorted(callers):
-        cf = root_fn(F, F.fns[ck])
-        if cf.key in seen:
-            continue
-        seen.add(cf.key)
+    for cf in entry_callers(F, close_fn):
         st = cf.raw.get("self_ty") or ""
         is_owner_drop = cf.raw.get("impl_trait") == "std::ops::Drop" and (st.startswith("unique::Observable<") or st.startswith("shared::SharedObservable<"))
         ctx.call_sites += 1
@@ -57,7 +50,7 @@ def run(ctx):
     # R03.2 / R03.3 : the Drop impls ----------------------------------------
     for cf in F.find(crate=EY, pred=lambda f: f.raw.get("impl_trait") == "std::ops::Drop"):
         st = cf.raw.get("self_ty") or ""
-        b = cf.built
+        b = inl(F, cf, close_fn)
         close_calls = [(blk, t) for blk, t in b.calls() if F.local_callee(cf, t) is close_fn]
         if st.startswith("unique::Observable<"):
             if not close_calls:
